@@ -190,6 +190,8 @@ fn turtle(ext: f32) -> BoxedStrategy<(Vec<(f32, f32)>, bool)> {
         1 => prop_oneof![-1.0f32..1.0, 179.0f32..181.0],
         // within 0.8 degrees of a reversal but not on it: the miter is 140 to 3000 half-widths long
         1 => prop_oneof![179.2f32..179.98, 180.02f32..180.8],
+        // hairpins: 1e-5..3e-4 rad from a reversal (the dot product of the unit normals rounds to either side of -1)
+        1 => prop_oneof![179.98f32..179.9995, 180.0005f32..180.02],
     ];
     // a step is a turn and a length, or (one in twelve) an exact retrace to the point before the current one:
     // a reversal whose two normals are bit-exactly opposite, which no computed 180 degree turn produces
